@@ -35,8 +35,9 @@ type saveEvent struct {
 
 type recStore struct {
 	quickfix.MessageStore
-	mu    sync.Mutex
-	saves []saveEvent
+	mu     sync.Mutex
+	saves  []saveEvent
+	resets []resetEvent
 }
 
 func (r *recStore) SaveMessageAndIncrNextSenderMsgSeqNum(n int, b []byte) error {
@@ -297,10 +298,26 @@ func Main(args []string) int {
 	senders := fs.Int("senders", 4, "sender goroutines")
 	per := fs.Int("per", 150, "messages per sender")
 	rounds := fs.Int("rounds", 6, "resend rounds")
+	gated := fs.Int("gated", 0, "forced-schedule runs (probes at every callback inside a replay, ResetSeqTime crossing)")
 	fs.Parse(args)
 	w, err := tr.NewWriter(*out)
 	if err != nil {
 		return 2
+	}
+	for i := 0; i < *gated; i++ {
+		rows, err := runGated(*kind, *repo, i)
+		if errors.Is(err, errAborted) {
+			fmt.Fprintln(os.Stderr, "send: skipped:", err)
+			continue
+		}
+		if err != nil {
+			fmt.Fprintln(os.Stderr, "send:", err)
+			w.Close()
+			return 2
+		}
+		for _, r := range rows {
+			w.Put(r)
+		}
 	}
 	for i := 0; i < *runs; i++ {
 		row, err := runOnce(*kind, *repo, *senders, *per, *rounds, i)
